@@ -59,6 +59,9 @@ def tasks(tier):
     for ts, (mn, mx) in itertools.product([0.5, 0.9, 1.0], [(1.0, 1.0), (1.0, 5.0), (2.0, 5.0)]):
         out.append({"family": "adaptive", "cfg": {"target": ts, "min": mn, "max": mx, "window": 4},
                     "entry": "adaptive", "bound": d, "weight": 4})
+    out.append({"family": "adaptive", "cfg": {"target": 0.9, "min": 1.0, "max": 5.0, "window": 4,
+                                               "fallback_kind": "bound"},
+                "entry": "adaptive", "bound": d - 3, "weight": 2})
     # boundary parameterisations: a target so small that 1 - target rounds to 1.0
     for ts in (1e-300, 2.0 ** -60, 1e-9):
         out.append({"family": "adaptive", "cfg": {"target": ts, "min": 1.0, "max": 5.0, "window": 4},
@@ -110,7 +113,9 @@ def run_envelope(task, seed):
     atts = attempts(task.get("tier", "quick"))
     g = {"equal_jitter": 2, "token_backoff": Fraction(3, 2)}.get(name)
     tol = 1e-9 if name == "token_backoff" else 1e-15
-    for a in atts:
+    # one strategy object serves every run through a policy: after the ascending sweep the same
+    # object is asked again for lower attempt numbers (another, interleaved run)
+    for a in list(atts) + [x for x in reversed(atts) if 1 < x <= 12]:
         cap = ref_cap(b, m, g, a) if g else None
         for prev in (prevs if name == "decorrelated_jitter" else [None, 0.0, 1e308]):
             for fr in FRACS:
@@ -164,14 +169,50 @@ def run_retry_after_or(task, seed):
     jitters = [0.0, 0.25, -1.0, 1e308, math.nan]
     remainings = [None, 0.0, 0.125, 1.125]
     fallbacks = [0.0, 0.125, math.nan, math.inf, -1.0, 1e308]
-    for hint, jit, rem, fb, fr, legacy in itertools.product(hints, jitters, remainings, fallbacks,
-                                                            FRACS, [False, True]):
-        if legacy:
+    import functools
+
+    class Client:
+        """Fallback strategies supplied as bound methods / class methods of a client object."""
+        value = 0.0
+
+        def __init__(self, v):
+            self.v = v
+
+        def backoff(self, ctx):
+            return self.v
+
+        def legacy_backoff(self, attempt, klass, prev):
+            return self.v
+
+        @classmethod
+        def class_backoff(cls, ctx):
+            return cls.value
+
+        def __call__(self, ctx):
+            return self.v
+
+    for hint, jit, rem, fb, fr, legacy in itertools.product(
+            hints, jitters, remainings, fallbacks, FRACS,
+            [False, True, "bound", "bound-legacy", "classmethod", "partial", "object"]):
+        if legacy is True:
             def fbfn(attempt, klass, prev, _fb=fb):
                 return _fb
-        else:
+        elif legacy is False:
             def fbfn(ctx, _fb=fb):
                 return _fb
+        elif legacy == "bound":
+            fbfn = Client(fb).backoff
+        elif legacy == "bound-legacy":
+            fbfn = Client(fb).legacy_backoff
+        elif legacy == "classmethod":
+            Sub = type("Sub", (Client,), {"value": fb})
+            fbfn = Sub.class_backoff
+        elif legacy == "partial":
+            fbfn = functools.partial(lambda scale, ctx, _fb=fb: _fb, 1.0)
+        else:
+            fbfn = Client(fb)
+        if legacy not in (False, True) and (jit not in (0.0, 0.25) or fr not in FRACS[:2]):
+            continue
         clock.frac = fr
         res["execs"] += 1
         case = ("retry_after_or", repr(hint), jit, rem, repr(fb), fr, legacy)
@@ -219,7 +260,15 @@ def run_adaptive(task, seed):
         clock = E.Clock()
         E.set_clock(clock)
         box = [0.0]
-        st = S.adaptive(lambda c: box[0], window_s=W, target_success=cfg["target"],
+        if cfg.get("fallback_kind") == "bound":
+            class _Client:
+                def backoff(self, c):
+                    return box[0]
+            fallback = _Client().backoff
+        else:
+            def fallback(c):
+                return box[0]
+        st = S.adaptive(fallback, window_s=W, target_success=cfg["target"],
                         min_multiplier=cfg["min"], max_multiplier=cfg["max"], clock=E.v_monotonic)
         evs = []
         out = None
